@@ -34,6 +34,9 @@ pub enum Oracle {
     Timed,
     /// C19
     Drain,
+    /// linearizability w.r.t. the reference model (real-time order respected):
+    /// used where a statement speaks about instants (C08, C10, C11, C14, C19)
+    Linear,
 }
 
 #[derive(Clone, Copy, PartialEq, Eq, Debug)]
@@ -151,6 +154,7 @@ pub fn check(o: Oracle, p: &Program, h: &History, model: Option<&Explored>) -> R
         Oracle::Counts => counts(&f),
         Oracle::Timed => timed(&f),
         Oracle::Drain => drain(&f),
+        Oracle::Linear => linear(p, h),
     }
 }
 
@@ -719,4 +723,48 @@ fn outcome(p: &Program, h: &History, m: &Explored) -> Result<(), String> {
         cands = next;
     }
     Err(format!("results {:?} are not an outcome of the reference model", o))
+}
+
+thread_local! {
+    /// verdicts per (program, history shape): identical shapes are decided once
+    static LIN_CACHE: std::cell::RefCell<(String, std::collections::HashMap<Vec<u64>, Result<(), String>>)> =
+        std::cell::RefCell::new((String::new(), std::collections::HashMap::new()));
+}
+
+fn linear(p: &Program, h: &History) -> Result<(), String> {
+    // key: relative order of all invocation / return / thread-end events plus
+    // the results
+    let mut ev: Vec<(u64, u64)> = Vec::new();
+    for c in &h.calls {
+        let id = (c.thread * 64 + c.idx) as u64;
+        ev.push((c.inv, id * 4));
+        ev.push((c.ret, id * 4 + 1));
+    }
+    for (t, b, e) in &h.thread_end {
+        ev.push((*b, (*t as u64) * 4 + 2 + (1 << 20)));
+        ev.push((*e, (*t as u64) * 4 + 3 + (1 << 20)));
+    }
+    ev.sort();
+    let mut key: Vec<u64> = ev.iter().map(|x| x.1).collect();
+    use std::hash::{Hash, Hasher};
+    let mut s = std::collections::hash_map::DefaultHasher::new();
+    for c in &h.calls {
+        (c.thread, c.idx).hash(&mut s);
+        c.res.hash(&mut s);
+        c.opt_some.hash(&mut s);
+    }
+    key.push(s.finish());
+    LIN_CACHE.with(|c| {
+        let mut c = c.borrow_mut();
+        if c.0 != p.name {
+            c.0 = p.name.clone();
+            c.1.clear();
+        }
+        if let Some(r) = c.1.get(&key) {
+            return r.clone();
+        }
+        let r = crate::model::linearizable(p, h);
+        c.1.insert(key, r.clone());
+        r
+    })
 }
